@@ -1,11 +1,12 @@
 CONSTANTS
   NR = 4
-  NC = 2
+  NC = 1
   NCmd = 2
   Hooks = TRUE
   Fixed = TRUE
   UseSched = TRUE
   CondErr = FALSE
+  Holds = {"waiting","cmd1","gate2","cmd2"}
 SPECIFICATION GSpec
 INVARIANTS NoPanic NoStartAfterCancel InterruptedReportsError Emit
 PROPERTIES Finishes
